@@ -119,7 +119,7 @@ def newFromString (s : Bytes) : Option Dec :=
       | none => none
       | some v => if exp < -2147483648 ∨ exp > 2147483647 then none else some ⟨v, exp⟩
 
-/-- a sign directly after a decimal point (the check added to `FromString` by the repair of F19) -/
+/-- a sign directly after a decimal point (the check added to `FromString` by the repair of F24) -/
 def containsDotSign : Bytes → Bool
   | a :: b :: r => (a == 46 && isSign b) || containsDotSign (b :: r)
   | _ => false
